@@ -15,6 +15,8 @@ import (
 
 	dragonboat "github.com/lni/dragonboat/v4"
 	"github.com/lni/dragonboat/v4/internal/rsm"
+	"github.com/lni/dragonboat/v4/internal/verifhook"
+	pb "github.com/lni/dragonboat/v4/raftpb"
 	"github.com/lni/dragonboat/v4/tools"
 	"github.com/lni/dragonboat/v4/verifh/cluster"
 	"github.com/lni/dragonboat/v4/verifh/common"
@@ -557,9 +559,27 @@ func runImport(r *common.Run, sk *sink, caseNo int, rng *rand.Rand, seed int64) 
 	for _, h := range c.Hosts {
 		h.ForgetAll()
 	}
+	// power loss at the first SaveRaftState after the start: the replica recovered from the
+	// imported snapshot a moment ago (and, for an on-disk state machine, shrunk it), nothing else
+	// happened yet - whatever it needs of the imported state must be durable by now
+	firstSave := !corrupt && rng.Intn(3) == 0
+	armed := map[int]<-chan struct{}{}
+	if firstSave {
+		verifhook.SetUpdates(verifhook.PreSave, func(uds []pb.Update) {
+			for i := range uds {
+				if hi, ok := hostOfNew[uds[i].ReplicaID]; ok && uds[i].ShardID == shardID {
+					c.Hosts[hi].AtPoint(1)
+				}
+			}
+		})
+		defer verifhook.SetUpdates(verifhook.PreSave, func([]pb.Update) {})
+	}
 	startFailed := false
 	for id, hi := range hostOfNew {
 		h := c.Hosts[hi]
+		if firstSave {
+			armed[hi] = h.ArmCrash(1)
+		}
 		if err := h.Start(); err != nil {
 			if corrupt {
 				startFailed = true
@@ -580,6 +600,29 @@ func runImport(r *common.Run, sk *sink, caseNo int, rng *rand.Rand, seed int64) 
 		}
 	}
 	stopped = false
+	if firstSave && !startFailed {
+		for hi, ch := range armed {
+			h := c.Hosts[hi]
+			select {
+			case <-ch:
+				sk.Count("power_loss_at_first_save_after_import", 1)
+			case <-time.After(10 * time.Second):
+				if h.Disarm() {
+					h.CrashInstant()
+				} else {
+					<-ch
+				}
+			}
+			h.CrashFinish()
+		}
+		for hi := range armed {
+			if err := c.Hosts[hi].Restart(); err != nil {
+				sk.Violation("C20", "restart-after-power-loss-failed", fmt.Sprintf("host %d did not restart after a power loss at the first SaveRaftState that followed the import: %v", hi, err), wit)
+				sk.Violation("C16", "restart-after-power-loss-failed", fmt.Sprintf("host %d did not restart after a power loss at the first SaveRaftState that followed the import: %v", hi, err), wit)
+				return
+			}
+		}
+	}
 	if startFailed {
 		sk.Count("corrupted_export_failed_loudly_at_restart", 1)
 		r.Case(false, common.Hash("corrupt-restart-failed", corruptWhat, caseNo))
@@ -611,8 +654,56 @@ func runImport(r *common.Run, sk *sink, caseNo int, rng *rand.Rand, seed int64) 
 					key = "corrupted-export-loaded-with-altered-state"
 				}
 				sk.Violation("C20", key, fmt.Sprintf("replica %d holds lists of lengths %s after the import, the exported state has %s", id, wit["got_lengths"], wit["expected_lengths"]), wit)
+				if firstSave {
+					sk.Violation("C16", "imported-state-lost-after-power-loss-at-first-save", fmt.Sprintf("replica %d holds lists of lengths %s after the import, a power loss at its first SaveRaftState and a restart; the exported state has %s", id, wit["got_lengths"], wit["expected_lengths"]), wit)
+				}
 				return
 			}
+		}
+	}
+	// an early power loss: the repaired replicas hold the exported state (recovered from the
+	// imported snapshot a moment ago); whatever they did to that snapshot file since (an on-disk
+	// state machine's snapshot is shrunk once recovered) must not have destroyed the only durable copy
+	if !corrupt && rng.Intn(2) == 0 {
+		for id := range hostOfNew {
+			c.Hosts[hostOfNew[id]].Crash()
+		}
+		for id := range hostOfNew {
+			if err := c.Hosts[hostOfNew[id]].Restart(); err != nil {
+				sk.Violation("C20", "restart-after-power-loss-failed", fmt.Sprintf("host %d did not restart after a power loss right after the first start that followed the import: %v", hostOfNew[id], err), wit)
+				sk.Violation("C16", "restart-after-power-loss-failed", fmt.Sprintf("host %d did not restart after a power loss right after the first start that followed the import: %v", hostOfNew[id], err), wit)
+				return
+			}
+		}
+		sk.Count("early_power_loss_after_import", 1)
+		sk.Count("early_power_loss_after_import_"+kind.String(), 1)
+		fmt.Printf("import case %d: early power loss (%s)\n", caseNo, kind)
+		again := waitFor(20*time.Second, func() bool {
+			for id := range hostOfNew {
+				in := c.SMs.Latest(shardID, id)
+				if in == nil || in.Closed() {
+					return false
+				}
+				got := in.Snapshot()
+				for k, want := range expected {
+					if len(got[k]) < len(want) {
+						return false
+					}
+					for i := range want {
+						if got[k][i] != want[i] {
+							return false
+						}
+					}
+				}
+			}
+			return true
+		})
+		if !again {
+			sk.Violation("C20", "imported-state-lost-after-another-restart:an early power loss",
+				"the repaired replicas held the exported state after their first start; after a power loss of their hosts right then and a restart, some replica's lists no longer start with the exported state", wit)
+			sk.Violation("C16", "imported-state-lost-after-another-restart:an early power loss",
+				"the repaired replicas held the exported state after their first start; after a power loss of their hosts right then and a restart, some replica's lists no longer start with the exported state", wit)
+			return
 		}
 	}
 	// leader + membership + new proposal
@@ -680,6 +771,93 @@ func runImport(r *common.Run, sk *sink, caseNo int, rng *rand.Rand, seed int64) 
 			if _, ok := m.Removed[witnessID]; !ok {
 				sk.Violation("C20", "unlisted-old-member-not-marked-removed",
 					fmt.Sprintf("replica %d: old witness %d is not recorded as removed (removed set %v)", id, witnessID, m.Removed), wit)
+				return
+			}
+		}
+	}
+	// ---- second life: the repaired replicas are restarted again (gracefully, and after a power
+	// loss) before they have necessarily taken a snapshot of their own; the imported state must
+	// still be there (the first restart shrinks the imported snapshot of an on-disk state machine)
+	hasPrefix := func(id uint64) bool {
+		in := c.SMs.Latest(shardID, id)
+		if in == nil || in.Closed() {
+			return false
+		}
+		got := in.Snapshot()
+		for k, want := range expected {
+			g := got[k]
+			if len(g) < len(want) {
+				return false
+			}
+			for i := range want {
+				if g[i] != want[i] {
+					return false
+				}
+			}
+		}
+		return true
+	}
+	secondLife := func(how string, ids []uint64) bool {
+		ok := waitFor(20*time.Second, func() bool {
+			for _, id := range ids {
+				if !hasPrefix(id) {
+					return false
+				}
+			}
+			return true
+		})
+		sk.Count("second_restarts_checked:"+how, 1)
+		if !ok {
+			for _, id := range ids {
+				if !hasPrefix(id) {
+					got := map[byte][]uint64{}
+					if in := c.SMs.Latest(shardID, id); in != nil {
+						got = in.Snapshot()
+					}
+					wit["replica"] = id
+					wit["how"] = how
+					wit["got_lengths"] = fmt.Sprintf("%d/%d", len(got[0]), len(got[1]))
+					wit["expected_lengths"] = fmt.Sprintf("%d/%d", len(expected[0]), len(expected[1]))
+					sk.Violation("C20", "imported-state-lost-after-another-restart:"+how,
+						fmt.Sprintf("replica %d was repaired by the import and held the exported state; after %s its lists (lengths %s) no longer start with the exported state (lengths %s)", id, how, wit["got_lengths"], wit["expected_lengths"]), wit)
+					sk.Violation("C16", "imported-state-lost-after-another-restart:"+how,
+						fmt.Sprintf("replica %d was repaired by the import and held the exported state; after %s its lists (lengths %s) no longer start with the exported state (lengths %s)", id, how, wit["got_lengths"], wit["expected_lengths"]), wit)
+					return false
+				}
+			}
+		}
+		return true
+	}
+	if !corrupt {
+		var ids []uint64
+		for id := range hostOfNew {
+			ids = append(ids, id)
+		}
+		sort.Slice(ids, func(i, j int) bool { return ids[i] < ids[j] })
+		one := ids[rng.Intn(len(ids))]
+		oh := c.Hosts[hostOfNew[one]]
+		oh.Stop()
+		time.Sleep(30 * time.Millisecond)
+		if err := oh.Restart(); err != nil {
+			sk.Violation("C20", "second-restart-after-import-failed", fmt.Sprintf("host %d did not restart a second time after the import: %v", oh.Index, err), wit)
+			sk.Violation("C16", "second-restart-after-import-failed", fmt.Sprintf("host %d did not restart a second time after the import: %v", oh.Index, err), wit)
+			return
+		}
+		if !secondLife("a graceful restart", []uint64{one}) {
+			return
+		}
+		if rng.Intn(2) == 0 {
+			for _, id := range ids {
+				c.Hosts[hostOfNew[id]].Crash()
+			}
+			for _, id := range ids {
+				if err := c.Hosts[hostOfNew[id]].Restart(); err != nil {
+					sk.Violation("C20", "restart-after-power-loss-failed", fmt.Sprintf("host %d did not restart after a power loss that followed the import: %v", hostOfNew[id], err), wit)
+					sk.Violation("C16", "restart-after-power-loss-failed", fmt.Sprintf("host %d did not restart after a power loss that followed the import: %v", hostOfNew[id], err), wit)
+					return
+				}
+			}
+			if !secondLife("a power loss of all repaired hosts", ids) {
 				return
 			}
 		}
